@@ -26,11 +26,30 @@ def run_check(prop: str, tier: str, repo_root: str) -> int:
         traceback.print_exc()
         return 2
     run = None
+    # a rule that does not come back (a term that grows without bound on some unforeseen form of code) must not hang the
+    # caller: the rules proper run under a wall-clock limit and end as an analysis error when it is hit
+    import signal
+
+    class _Timeout(AnalysisError):
+        pass
+
+    def _on_alarm(signum, frame):
+        raise _Timeout(f"the analysis did not finish within {limit} s")
+    limit = int(os.environ.get("VSTATIC_RULE_TIMEOUT", "300") or 300)
+    try:
+        signal.signal(signal.SIGALRM, _on_alarm)
+        signal.alarm(limit)
+    except (ValueError, AttributeError):
+        pass
     try:
         repo = Repo(repo_root)
         run = Run(prop, tier, repo.root, getattr(mod, "EXPLANATION", ""))
         run.analysed = dict(repo.units())
         mod.check(repo, run)
+        try:
+            signal.alarm(0)
+        except (ValueError, AttributeError):
+            pass
         if tier == "thorough":
             if hasattr(mod, "thorough"):
                 mod.thorough(repo, run)
